@@ -16,7 +16,7 @@
 (*   among the boxes that pass the filter.                                          *)
 EXTENDS Nms, Json
 CONSTANTS Mode,     \* "enum" | "sim"
-          Alpha,    \* "tiny" | "small" | "full" : box alphabet
+          Alpha,    \* "tiny" | "small" | "full" | "elong" : box alphabet
           MinLen,   \* shortest list (enum)
           MaxLen,   \* longest list (enum)
           Grid,     \* "quick" | "full" : nms threshold grid
@@ -41,7 +41,11 @@ Small == { B(0, 0, 8, 6, 0, 1), B(0, 0, 6, 4, 0, 0), B(0, 0, 2, 2, 0, 1), B(1, 1
            B(30, 30, 4, 4, 0, 1), B(0, 0, 0, 4, 0, 1), B(0, 0, 4, 0, 0, 0), B(0, 0, -4, -2, 0, 1) }          \* 17 boxes (negative width AND height: positive aspect, negative height)
 Tiny  == { B(0, 0, 8, 6, 0, 1), B(0, 0, 6, 4, 0, 0), B(1, 1, 4, 3, 0, 0), B(2, 0, 8, 6, 0, 0),
            B(1, 0, 6, 2, 1, 0), B(2, 2, 6, 3, 1, 0), B(-2, -1, 6, 8, 0, 1), B(0, 0, 4, 0, 0, 0) }           \* 8 boxes
-Boxes == IF Alpha = "full" THEN Full ELSE IF Alpha = "small" THEN Small ELSE Tiny
+(* long thin boxes in a row: a short, higher one whose circumscribed circle stops short of the centre of a long, lower one
+   that it nevertheless covers by 0.325 (19.5 x 1 of 60 x 1) - a distance pre-check must look at BOTH radii; the same pair
+   turned by a quarter turn, and two bystanders *)
+Elong == { B(0, 0, 40, 3, 0, 1), B(41, 0, 120, 2, 0, 0), B(0, 0, 40, 3, 1, 0), B(0, 41, 120, 2, 1, 0), B(0, 0, 8, 6, 0, 1), B(30, 30, 4, 4, 0, 1) }
+Boxes == IF Alpha = "full" THEN Full ELSE IF Alpha = "small" THEN Small ELSE IF Alpha = "elong" THEN Elong ELSE Tiny
 
 Thrs == IF Grid = "full" THEN {<<1, 10>>, <<3, 10>>, <<1, 2>>, <<7, 10>>, <<9, 10>>} ELSE {<<3, 10>>, <<7, 10>>}
 (* score patterns by position (hundredths; NoScore = no score; zero and negative scores are scores like any other) with their score thresholds:
